@@ -18,6 +18,7 @@ A_VCPREFIX = "switch prefix of proof.RootFromConsistencyProof (equal sizes, size
 
 GETCP = "(*%s/internal/witness.Witness).GetCheckpoint" % W
 
+IM = "%s/internal/persistence/inmemory" % W
 ASLOGMAP = "(%s/omniwitness.LogConfig).AsLogMap" % W
 WNEW = "%s/internal/witness.New" % W
 INITM = "%s/internal/witness.initMetrics$1" % W
@@ -29,13 +30,20 @@ PROPS = {
     "C02": {"funcs": [UPDATE, ASLOGMAP, WNEW], "tags": ["C02"], "assumptions": [A_NOTE, A_STORE, "formats/note.NewVerifier and log.ID are functions of their argument (assumed contracts); omniwitness.Main passing AsLogMap's result to witness.New is read, not verified (Main uses goroutines: outside the subset)"]},
     "C03": {"funcs": [UPDATE, GETCP], "tags": ["C03"], "assumptions": [A_NOTE, A_STORE]},
     "C04": {"funcs": [UPDATE, GETCP], "tags": ["C04"], "assumptions": [A_NOTE, A_STORE, "the cosignature/v1 signer stamps time.Now() when note.Sign calls it (formats/note/note_cosigv1.go): the timestamp window follows from 'the Sign call happened inside this Update call' (proved)"]},
+    "C05": {"runs": [
+                {"funcs": [IM + ".inMemoryPersistence).expectAndWrite", IM + ".verifScenarioWrite", IM + ".verifScenarioRead"], "tags": ["C05"]},
+                {"funcs": [UPDATE], "tags": ["C05"], "mode": "interference", "nolemmas": True}],
+            "assumptions": [A_NOTE, "sync.RWMutex gives mutual exclusion (its contract records only which locks the calling thread holds); the Go memory model",
+                            "SQL store: transaction isolation of SQLite with the single-connection pool is assumed; nothing about it is proved here",
+                            "the last step 'every storage operation atomic + compare-and-set on a validated snapshot => linearizable' is a paper argument (DESIGN C05)"],
+            "not_decided": ["interleavings finer than storage-operation granularity; SQL isolation; randomized race-detector schedules"]},
     "C07": {"funcs": [UPDATE], "tags": ["C07"], "assumptions": [A_NOTE, A_STORE]},
     "C08": {"funcs": [UPDATE], "tags": ["C08"], "assumptions": [A_NOTE, A_STORE, A_VCPREFIX]},
     "C09": {"funcs": [UPDATE], "tags": ["C09"], "assumptions": [A_NOTE, A_STORE, A_VCPREFIX]},
     "C20": {"funcs": [UPDATE, INITM], "tags": ["C20"], "assumptions": [A_NOTE, A_STORE, A_VCPREFIX, "monitoring.Counter.Inc adds one to the counter for its label (interface contract)"]},
 }
 
-HOOK_COMMITS = ["7296b73", "af7d29a", "308f21e", "b6239f6"]
+HOOK_COMMITS = ["7296b73", "af7d29a", "308f21e", "b6239f6", "c655fca"]
 
 NOT_APPLICABLE = {
     "C14": "whole-system liveness and timing over goroutines, tickers, HTTP servers and stub log servers ('within a bounded number of poll intervals', across restarts): no per-function contract expresses 'eventually catches up', and omniwitness.Main (go/select/errgroup) is outside the generator's subset. Its safety ingredients are decided by C01, C12, C13, C16.",
@@ -52,6 +60,15 @@ MANIFEST_TEXT = {
             "note": "storage interface contract (sequential reading) and note.Sign/ParseCheckpoint contracts assumed; implementations of the store checked separately."},
     "C04": {"level": "Postconditions of Update/GetCheckpoint: on every accept path the result is the value of a note.Sign call made during this call on the note opened from the submitted bytes (so a refresh re-signs), it is what was committed, and a following read returns it. One clause (the result re-opens under the log key) fails when the cosigned note exceeds 100 signature lines: recorded as known finding F1 and proved outside that region.",
             "note": "what note.Sign puts into the note (text kept, one line per signer, timestamp from time.Now()) is the assumed contract of x/mod sumdb/note and formats/note; cryptography not verified."},
+    "C05": {"runs": [
+                {"funcs": [IM + ".inMemoryPersistence).expectAndWrite", IM + ".verifScenarioWrite", IM + ".verifScenarioRead"], "tags": ["C05"]},
+                {"funcs": [UPDATE], "tags": ["C05"], "mode": "interference", "nolemmas": True}],
+            "assumptions": [A_NOTE, "sync.RWMutex gives mutual exclusion (its contract records only which locks the calling thread holds); the Go memory model",
+                            "SQL store: transaction isolation of SQLite with the single-connection pool is assumed; nothing about it is proved here",
+                            "the last step 'every storage operation atomic + compare-and-set on a validated snapshot => linearizable' is a paper argument (DESIGN C05)"],
+            "not_decided": ["interleavings finer than storage-operation granularity; SQL isolation; randomized race-detector schedules"]},
+    "C05": {"level": "Thread-modular proof with the weakest rely (other threads may change the store arbitrarily between any two storage operations), covering every interleaving at storage-operation granularity for any number of threads: (1) lock discipline of the in-memory store: every access to the checkpoints map happens with mu held (exclusively for writes), every path releases what it took; (2) expectAndWrite is a compare-and-set on (absent | present with deeply equal bytes) that writes exactly its key; (3) harness scenarios (WriteOps; GetLatest; Set / ReadOps; GetLatest with interference between all operations): Set succeeds only if at that instant the store still holds the snapshot the handle handed out, then writes exactly that entry; (4) Update re-verified against the interference reading of the storage contract: accepted only if at the commit instant the store held exactly the value the decision was made against, that value justifies the step, the commit wrote the returned bytes, refusals commit nothing.",
+            "note": "the step from (1)-(4) to linearizability is a paper argument; SQL isolation assumed; goroutine scheduling and the memory model are not modelled."},
     "C07": {"level": "Postconditions of Update under a faulty-store interface contract in which every storage call's error is an unconstrained symbolic value: success only after a successful Set whose value a following read returns; a failed non-NotFound read never leads to sign/Set; a failed Set gives (nil, err); the write handle is closed exactly once on every path (defers are executed symbolically). All fault patterns are covered by the universal quantification over the error values.",
             "note": "status.Code contract assumed; SQL-driver-level faults and 'no transaction left open' for the SQL store are not part of this check yet."},
     "C08": {"level": "Representation invariant (what is committed re-opens under the log's key and origin) and 'honest step => accepted' as postconditions of Update for all sizes 0..2^64-1. Both fail on the real code in a precisely delimited region (F1: more than 100 signature lines after cosigning; F2: stored size 0 < submitted size); the counterexamples were replayed on the real witness, are recorded as known findings, and the obligations are proved outside the regions.",
